@@ -188,7 +188,7 @@ func runC07(rec *vk.Rec, ci int) {
 			} else {
 				w.C.CloseWrite()
 			}
-			if !w.WaitClosed(30 * time.Second) {
+			if !w.WaitClosed(120 * time.Second) {
 				rec.Inconclusive("broker did not close the will connection within the watchdog")
 				w.Abort()
 				return
